@@ -270,16 +270,26 @@ func noteNT(src string, exprs []exprAt) {
 	}
 }
 
+// crlf is the same file saved with Windows line endings.
+func crlf(src string) string {
+	return strings.ReplaceAll(strings.ReplaceAll(src, "\r\n", "\n"), "\n", "\r\n")
+}
+
 func TestPropSeeds(t *testing.T) {
 	for _, sd := range corpus.Seeds() {
-		n, err := decide(sd.Text, nil)
-		rec.Eval(n)
-		if err != nil {
-			if k := knownClass(sd.Text, err); k != "" && ev.IsOpenFinding("C07", k) {
-				rec.Excluded(k)
-				continue
+		for vi, text := range []string{sd.Text, crlf(sd.Text)} {
+			n, err := decide(text, nil)
+			rec.Eval(n)
+			if vi == 1 {
+				rec.ClassN("expressions of CRLF files", n)
 			}
-			rec.Fail(t, Case{Source: ev.QStr(sd.Text)}, "%s: %v", sd.Name, err)
+			if err != nil {
+				if k := knownClass(text, err); k != "" && ev.IsOpenFinding("C07", k) {
+					rec.Excluded(k)
+					continue
+				}
+				rec.Fail(t, Case{Source: ev.QStr(text)}, "%s: %v", sd.Name, err)
+			}
 		}
 	}
 }
@@ -297,6 +307,11 @@ func TestPropGenerated(t *testing.T) {
 				continue // script templates are generated as Go string constants, not as Go code
 			}
 			exprs = append(exprs, exprAt{slot: r.Slot, start: r.Start, text: r.Text})
+		}
+		if rapid.IntRange(0, 3).Draw(t, "crlf") == 0 {
+			// the same program saved with CRLF line endings; the printer's offsets no longer
+			// apply, the parser's own expression records are used
+			src, exprs = crlf(src), nil
 		}
 		n, err := decide(src, exprs)
 		rec.Eval(n)
